@@ -8,6 +8,7 @@
 package main
 
 import (
+	"encoding/json"
 	"fmt"
 	"sort"
 	"strings"
@@ -233,6 +234,21 @@ func seqOps() []seqOp {
 			list.Min(l, asc)
 			return one(a)
 		}, false},
+		{"Option[Seq].UnmarshalJSON over a defined Option", func(p *pool, s, t fp.Seq[int]) [][]int {
+			// decoding into a variable that already holds Some(s) replaces the Option; the slice the
+			// older copies (and the caller) still hold is not the decoder's to reuse
+			o := fp.Some(s)
+			older := o
+			json.Unmarshal([]byte("[9,8]"), &o)
+			first := o.OrElse(nil)
+			json.Unmarshal([]byte("[7]"), &o)
+			json.Unmarshal([]byte("null"), &o)
+			o2 := fp.Some(t)
+			json.Unmarshal([]byte("[6,6,6,6,6,6,6,6,6]"), &o2)
+			json.Unmarshal([]byte("{"), &o2)
+			_ = older
+			return [][]int{first, o2.OrElse(nil)}
+		}, true},
 		{"Option/Try holding the Seq", func(p *pool, s, t fp.Seq[int]) [][]int {
 			o := fp.Some(s)
 			o.Filter(func(fp.Seq[int]) bool { return true })
